@@ -140,6 +140,7 @@ def run_check(mod, tier, seed):
     from .bmc import Stats
     pid = mod.PROPERTY
     cfgs = list(mod.configs(tier, seed))
+    mod._ALL_CONFIGS = cfgs          # (siblings that are elaborated before a configuration: see e1.history_of)
     total = Stats()
     violations = []
     errors = []
